@@ -72,11 +72,18 @@ N_DERIV = sum(1 for c in POOL if c['cls'] == 'Derivative')
 
 
 def make_generator(nd, cfg):
+    """A fresh generator equal to the one an object of configuration ``cfg`` owns: the explicit one of
+    'gen' configurations, or the one the constructor creates itself (Derivative._step_generator)."""
+    cstep = cfg['method'] in ('complex', 'multicomplex')
     if cfg['step'] == 'gen':
-        if cfg['method'] in ('complex', 'multicomplex'):
+        if cstep:
             return nd.MinStepGenerator(num_extrap=3)
         return nd.MaxStepGenerator(base_step=1.0, num_steps=12)
-    return None
+    if cfg['step'] == 'scalar':
+        return nd.MinStepGenerator(base_step=0.0078125, step_nom=1.0)
+    if cstep:
+        return nd.MinStepGenerator(base_step=None)
+    return nd.MaxStepGenerator()
 
 
 def construct(nd, cfg, shared_gen=None):
@@ -251,7 +258,9 @@ class C09(Prop):
         fd.FD_RULES.clear()
         with warnings.catch_warnings():
             warnings.simplefilter('ignore')
-            for op in case['ops']:
+            queue = list(case['ops'])
+            while queue:
+                op = queue.pop(0)
                 kind = op['op']
                 if kind in ('construct', 'share') or (not objs and kind in ('call', 'set_n', 'set_order',
                                                                             'set_method')):
@@ -259,9 +268,10 @@ class C09(Prop):
                     gen_of = None
                     shared = None
                     if kind == 'share':
-                        donors = [o for o in objs if o['cfg']['cls'] == 'Derivative'
-                                  and o['cfg']['step'] == 'gen']
-                        cfg = dict(POOL[op['a'] % N_DERIV])
+                        # any object may lend its generator instance (the explicit one or the one its
+                        # constructor created) to an object of any class of the same step family
+                        donors = list(objs)
+                        cfg = dict(POOL[op['a'] % len(POOL)])
                         if donors:
                             donor = donors[op['b'] % len(donors)]
                             cstep_d = donor['cfg']['method'] in ('complex', 'multicomplex')
@@ -269,12 +279,18 @@ class C09(Prop):
                             if cstep_d == cstep_c:
                                 shared = donor['obj'].step
                                 gen_of = donor['gen_of'] or donor['cfg']
-                                cfg['step'] = 'gen'
+                                cfg['step'] = 'shared'
                     with ctx.lib('no-exception', 'constructing %s' % cfg):
                         obj = construct(nd, cfg, shared)
-                    objs.append(dict(obj=obj, cfg=cfg, gen_of=gen_of if shared is not None else
-                                     (cfg if cfg['step'] == 'gen' else None), used=set()))
+                    objs.append(dict(obj=obj, cfg=cfg, gen_of=gen_of if shared is not None else None,
+                                     used=set()))
                     ctx.count('op=%s' % ('share' if shared is not None else 'construct'))
+                    if shared is not None:
+                        # use the lender, then the borrower, right away (same point or another one)
+                        di = objs.index(donor)
+                        queue[0:0] = [dict(op='call', a=di, b=op['c'], c=0, exact_index=True),
+                                      dict(op='call', a=len(objs) - 1, b=op['c'] + (op['b'] % 2), c=0,
+                                           exact_index=True)]
                     if kind in ('construct', 'share'):
                         continue
                 if kind == 'clear':
@@ -295,7 +311,7 @@ class C09(Prop):
                     fd_warm = True
                     ctx.count('op=other-class')
                     continue
-                o = objs[op['a'] % len(objs)]
+                o = objs[op['a'] if op.get('exact_index') else op['a'] % len(objs)]
                 cfg, obj = o['cfg'], o['obj']
                 xid = op['b'] % 6
 
